@@ -1410,6 +1410,11 @@ func (ip *Interp) evalCall(fr *frame, x *ssa.Call, st *Store) (AV, bool) {
 			ip.fault(fr, x, "nil-invoke", fmt.Sprintf("method %s invoked on a nil interface", cc.Method.Name()))
 			return avBot, false
 		}
+		// reflect.TypeOf(a).ConvertibleTo(reflect.TypeOf(b)) with both dynamic types known (the inline reflection fallback
+		// of the typed views)
+		if recv.Tag == "reflect.Type" && recv.T != nil && cc.Method.Name() == "ConvertibleTo" && len(args) == 1 && args[0].Tag == "reflect.Type" && args[0].T != nil {
+			return avBool(types.ConvertibleTo(recv.T, args[0].T)), true
+		}
 		if recv.K == kIface && recv.Nil == nilNo && recv.Dyn != nil && recv.Dyn.T != nil {
 			sel := ip.w.Prog.MethodSets.MethodSet(recv.Dyn.T).Lookup(cc.Method.Pkg(), cc.Method.Name())
 			if sel != nil {
@@ -1494,7 +1499,12 @@ func (ip *Interp) callFn(fr *frame, site *ssa.Call, fn *ssa.Function, args []AV,
 				return AV{K: kIface, Nil: nilYes}, true // reflect.TypeOf(nil) == nil
 			}
 			if len(args) == 1 && args[0].K == kIface && args[0].Nil == nilNo {
-				return AV{K: kIface, Nil: nilNo}, true
+				r := AV{K: kIface, Nil: nilNo}
+				if args[0].Dyn != nil && args[0].Dyn.T != nil {
+					// the reflect.Type of a value whose dynamic type is known: remembered for ConvertibleTo
+					r.Tag, r.T = "reflect.Type", args[0].Dyn.T
+				}
+				return r, true
 			}
 		case "strings.EqualFold":
 			if len(args) == 2 && args[0].K == kConst && args[1].K == kConst {
@@ -1521,6 +1531,18 @@ func (ip *Interp) callFn(fr *frame, site *ssa.Call, fn *ssa.Function, args []AV,
 			}
 		}
 		return avBool(false), true
+	}
+	// the reflection fallback of the typed views: reflectItemToType[T](it) converts it to *T when reflect says the
+	// dynamic type is convertible — for a non-nil pointer to a package struct that is types.ConvertibleTo — and returns
+	// (nil, error) otherwise. Decided exactly when the dynamic type of the argument is known.
+	if o := fn.Origin(); o != nil && o.Name() == "reflectItemToType" && len(args) == 1 && len(fn.TypeArgs()) == 1 {
+		a := args[0]
+		if a.K == kIface && a.Nil == nilNo && a.Dyn != nil && a.Dyn.T != nil && a.Dyn.Nil == nilNo {
+			target := types.NewPointer(fn.TypeArgs()[0])
+			if !types.ConvertibleTo(a.Dyn.T, target) {
+				return AV{K: kTuple, Tup: []AV{{K: kPtr, T: target, Nil: nilYes}, {K: kIface, Nil: nilNo}}}, true
+			}
+		}
 	}
 	// lookup in a constant package-level table (for _, t := range table { if EqualFold(x, t) { return t } }; return
 	// notFound), decided exactly for a constant argument
